@@ -99,6 +99,13 @@ def run(cfg, w):
                 w.ob(f"ambiguous_item_rejected[{k}]", False)
             except Exception:
                 w.ob(f"ambiguous_item_rejected[{k}]", True)
+        for k in ("q", ("p", "q"), ("q", "r"), ("r", "q"), ("q", "p")):
+            try:
+                x[k] = 1.0
+                w.ob(f"ambiguous_item_rejected_on_write[{k}]", False)
+            except Exception:
+                w.ob(f"ambiguous_item_rejected_on_write[{k}]", True)
+            w.ob_arr_eq(f"unchanged_after_ambiguous_write[{k}]", x.values, X)
         r = x["p"]
         w.ob("unique_item_dims", r.dims.letters == ("b",))
         w.ob_arr_eq("unique_item", r.values, X[0])
